@@ -120,7 +120,8 @@ def _rename_in(e, pmap, vmap):
     if isinstance(e, dict):
         out = {}
         for k, v in e.items():
-            if k == "forall":
+            if k == "forall" and isinstance(v, list) and all(isinstance(x, (list, tuple)) and len(x) == 2 and isinstance(x[0], str) for x in v):
+                # (a `costs` table keyed by an action that is *named* "forall" is not a binder list)
                 out[k] = [[vmap.get(n, n), t] for n, t in v]
             else:
                 out[k] = _rename_in(v, pmap, vmap)
@@ -137,8 +138,9 @@ def _collect_vars(e, acc):
     elif isinstance(e, dict):
         for k, v in e.items():
             if k == "forall":
-                for n, _ in v:
-                    acc.add(n)
+                for nv in v:
+                    if isinstance(nv, (list, tuple)) and len(nv) == 2 and isinstance(nv[0], str):
+                        acc.add(nv[0])
             _collect_vars(v, acc)
 
 
